@@ -18,6 +18,8 @@ func checkC15(c *Check, a *Anchors) {
 	c15PatternLiteral(c, a)
 	c15Fuzzy(c, a)
 	nilContradictions(c, a, "checked-then-dereferenced", []string{PkgTask})
+	aliasScanUnfiltered(c, a)
+	resolvesThroughGetTask(c, a, "resolves-through-GetTask")
 }
 
 func c15ExactFirst(c *Check, a *Anchors) {
